@@ -25,8 +25,7 @@ CONSTANTS
   MaxSub,      \* number of subgraphs
   MaxIns,      \* graph inputs per subgraph (1..MaxIns)
   Kinds,       \* operator kinds enumerated
-  ModesW,      \* modes offered to weight-bearing kinds (FC, TCONV, BMM, EMB)
-  ModesA,      \* modes offered to activation-only kinds
+  KM,          \* [kind -> set of modes] offered to operators of that kind (what a resolved recipe can yield)
   IOModes,     \* modes offered to the virtual INPUT / OUTPUT operators
   Share,       \* "none" | "tensor" | "buffer": constants may be shared between ops
   Fixes        \* set of repairs present in the code being modelled (DESIGN 6):
@@ -104,10 +103,7 @@ NOut(k) == IF k = "SPLIT" THEN 2 ELSE 1
 SameIn(k) == k \in {"SAMEIN0", "SAMEIN1", "SAMEIN3", "SPLIT"}
 Fixed(k) == k \in {"FIXSL", "FIXT"}
 FixClass(k) == IF k = "FIXSL" THEN "SL" ELSE "T"
-KindModes(k) == IF k = "UNSUP" THEN {NOQ}
-                ELSE IF k \in WeightKinds
-                     THEN {m \in ModesW : (k = "EMB" => m.m # "SRQ") /\ (k = "BMM" => m.m # "F16")}
-                     ELSE ModesA
+KindModes(k) == KM[k]
 IsSRQ(m) == m.m = "SRQ"
 Bits(a) == IF a = "a16" THEN 16 ELSE 8
 
